@@ -28,6 +28,9 @@ def run(ck):
     ck.clause("C11.3", "row header exchanges query start/end on the reverse strand")
     ck.clause("C11.4", "reverse strand = reversed query vector; identical handling of both strands; strand flag carried through")
     numbering(ck, "C11.1")
+    ck.clause("C11.5", "every query is trimmed the same way (length = last - first + 1), so mirroring about length-1 maps labels onto labels")
+    from .c17 import trim_formulae
+    trim_formulae(ck, "C11.5")
     # ---- C11.2
     fn = p.find_method("SequentialityScorer", "getScore")
     prev, cur = [pp.name for pp in fn.call_params()]
